@@ -421,7 +421,7 @@ def run(chk):
                 chk.violation(f"sweep:{name}:not-monotone", f"limit {L} fails although the smaller limit {need} passes", dict(replay, got=r))
         sweep_stats[name] = {"final_bytes": final, "least_passing_limit": need, "limits_tried": len(pts), "passing": n_pass, "failing": n_fail}
     chk.coverage["sweeps"] = sweep_stats
-    chk.coverage["exhaustive"] = "thorough: every limit within 300 bytes of the library baseline and from (least passing limit - 1200) to (least passing limit + 40), every 5th limit in between, for every program" if not quick else \
+    chk.coverage["exhaustive_note"] = "thorough: every limit within 300 bytes of the library baseline and from (least passing limit - 1200) to (least passing limit + 40), every 5th limit in between, for every program" if not quick else \
         "quick: ~40 limits per program (0, 1, around the library baseline, around the program's final size, around its least passing limit, 12 sampled in between)"
     chk.sample({"sweep": "ints", "src": PROGRAMS["ints"]})
 
